@@ -43,6 +43,8 @@ pub struct ScaleOut {
     pub scanned: usize,
     pub build_us: u128,
     pub drop_us: u128,
+    /// functional observations on big numbers (counts before the drop, Weak handles after it)
+    pub count_errors: usize,
 }
 
 /// Build the shape so that exactly one outside handle remains (every other
@@ -80,7 +82,7 @@ pub fn run(shape: &str, n: usize, chords: usize, selfsame_every: usize, seed: u6
         drop(keep);
         let drop_us = t1.elapsed().as_micros();
         let c = verif::counters();
-        return ScaleOut { n, edges, destroyed: DESTROYED.load(Relaxed), double: DOUBLE.load(Relaxed), trace_calls: c[0], pops: c[1], visits: c[2], scanned: c[3], build_us, drop_us };
+        return ScaleOut { n, edges, destroyed: DESTROYED.load(Relaxed), double: DOUBLE.load(Relaxed), trace_calls: c[0], pops: c[1], visits: c[2], scanned: c[3], build_us, drop_us, count_errors: 0 };
     }
     // 1. all edges that are made through clones
     match shape {
@@ -109,7 +111,7 @@ pub fn run(shape: &str, n: usize, chords: usize, selfsame_every: usize, seed: u6
                 link(objs[0].as_ref().unwrap(), t, false);
                 edges += 1;
             }
-            for _ in 0..(if shape == "multi" { 0 } else { chords }) {
+            for _ in 0..(if shape == "multi" || shape == "manyweak" { 0 } else { chords }) {
                 let (a, b) = (rng.below(n), rng.below(n));
                 let t = at(&objs, b);
                 link(objs[a].as_ref().unwrap(), t, false);
@@ -188,11 +190,43 @@ pub fn run(shape: &str, n: usize, chords: usize, selfsame_every: usize, seed: u6
     }
     let keep = objs[0].take().unwrap();
     drop(objs);
+    // big numbers, functionally: exact counts with 10^4..10^6 handles / Weak handles
+    let mut count_errors = 0usize;
+    let mut weaks: Vec<cactusref::Weak<Big>> = Vec::new();
+    if shape == "multi" && n > 1 {
+        // object 1 is held `chords` times by object 0 (recorded) plus once by the chain
+        let one = Rc::clone(&keep.slots.borrow()[0]);
+        let id1 = one.id;
+        let expect = keep.slots.borrow().iter().filter(|h| h.id == id1).count() + 1;
+        if Rc::strong_count(&one) != expect {
+            count_errors += 1;
+        }
+        drop(one);
+    }
+    if shape == "manyweak" {
+        // `chords` Weak handles to object 0, a third of them clones of clones
+        for i in 0..chords {
+            let w = if i % 3 == 2 && !weaks.is_empty() { weaks[i / 2].clone() } else { Rc::downgrade(&keep) };
+            weaks.push(w);
+        }
+        if Rc::weak_count(&keep) != chords || weaks.last().map_or(false, |w| w.weak_count() != chords || w.strong_count() != Rc::strong_count(&keep)) {
+            count_errors += 1;
+        }
+    }
     let build_us = t0.elapsed().as_micros();
     verif::reset();
     let t1 = std::time::Instant::now();
     drop(keep);
     let drop_us = t1.elapsed().as_micros();
     let c = verif::counters();
-    ScaleOut { n, edges, destroyed: DESTROYED.load(Relaxed), double: DOUBLE.load(Relaxed), trace_calls: c[0], pops: c[1], visits: c[2], scanned: c[3], build_us, drop_us }
+    for (i, w) in weaks.iter().enumerate() {
+        if w.upgrade().is_some() || w.strong_count() != 0 || w.weak_count() != 0 {
+            count_errors += 1;
+        }
+        if i > 64 {
+            break;
+        }
+    }
+    drop(weaks);
+    ScaleOut { n, edges, destroyed: DESTROYED.load(Relaxed), double: DOUBLE.load(Relaxed), trace_calls: c[0], pops: c[1], visits: c[2], scanned: c[3], build_us, drop_us, count_errors }
 }
